@@ -14,7 +14,13 @@
      stream; the appender flushes after every record, so the bytes per record are exactly
      the bytes written.
    * the pattern is given as its compiled chunk tree, restricted to literal text, {l}, {m},
-     {n} and {h(..)} without width parameters (pattern syntax is C09's/C11's subject). *)
+     {n} and {h(..)} (pattern syntax is C09's/C11's subject).  A highlight group may carry a
+     format spec (min width, max width, alignment, fill): Chunk::encode then wraps the writer
+     in MaxWidthWriter / LeftAlignWriter / RightAlignWriter, modelled here on the sequence of
+     writer calls (apply_params): text is truncated / padded by characters (a byte starts a
+     character iff it is < 0x80 or >= 0xC0, `is_char_boundary`), set_style calls pass through
+     MaxWidthWriter and LeftAlignWriter immediately and are buffered and replayed in order by
+     RightAlignWriter.  The sink accepts every write completely (short writes are C10's). *)
 From Coq Require Import List NArith Bool.
 Import ListNotations.
 From L4 Require Import Model.Ansi.
@@ -94,16 +100,26 @@ Definition level_name (l : level) : bytes :=
   | Trace => [84; 82; 65; 67; 69]
   end.
 
+Inductive ev :=
+| EvBytes (b : bytes)        (* write_all / write_fmt *)
+| EvStyle (s : style).       (* set_style *)
+
+(* Parameters of a formatted chunk; fill is the UTF-8 encoding of the fill character *)
+Record params := {
+  p_min : option N;
+  p_max : option N;
+  p_right : bool;          (* Alignment::Right *)
+  p_fill : bytes;
+}.
+
+Definition no_params : params := {| p_min := None; p_max := None; p_right := false; p_fill := [32] |}.
+
 Inductive chunk :=
 | CText (s : bytes)
 | CLevel
 | CMessage
 | CNewline
-| CHighlight (cs : list chunk).
-
-Inductive ev :=
-| EvBytes (b : bytes)        (* write_all / write_fmt *)
-| EvStyle (s : style).       (* set_style *)
+| CHighlight (p : params) (cs : list chunk).
 
 (* the style Highlight sets for the record's level, None = no set_style call at all *)
 Definition highlight_style (l : level) : option style :=
@@ -115,22 +131,77 @@ Definition highlight_style (l : level) : option style :=
   | Debug => None
   end.
 
+(* ---- width writers, on the sequence of writer calls ---- *)
+
+(* is_char_boundary(b): b as i8 >= -0x40 *)
+Definition is_boundary (b : N) : bool := (b <? 128) || (192 <=? b).
+
+(* char_starts *)
+Definition char_starts (bs : bytes) : N := N.of_nat (length (filter is_boundary bs)).
+
+(* MaxWidthWriter::write over one buffer: the bytes passed on and the remaining budget.
+   The first character start met with remaining = 0 ends the output; the rest is swallowed. *)
+Fixpoint take_chars (remaining : N) (bs : bytes) : bytes * N :=
+  match bs with
+  | [] => ([], remaining)
+  | b :: r =>
+    if is_boundary b then
+      if remaining =? 0 then ([], 0)
+      else let '(k, rem') := take_chars (remaining - 1) r in (b :: k, rem')
+    else let '(k, rem') := take_chars remaining r in (b :: k, rem')
+  end.
+
+(* MaxWidthWriter over a sequence of calls: set_style is forwarded unconditionally *)
+Fixpoint max_width (remaining : N) (evs : list ev) : list ev :=
+  match evs with
+  | [] => []
+  | EvBytes b :: r => let '(k, rem') := take_chars remaining b in EvBytes k :: max_width rem' r
+  | EvStyle s :: r => EvStyle s :: max_width remaining r
+  end.
+
+Fixpoint total_chars (evs : list ev) : N :=
+  match evs with
+  | [] => 0
+  | EvBytes b :: r => char_starts b + total_chars r
+  | EvStyle _ :: r => total_chars r
+  end.
+
+(* finish(): to_fill times write!(w, "{}", fill) *)
+Definition fill_ev (fill : bytes) (n : N) : ev := EvBytes (N.iter n (app fill) []).
+
+(* Chunk::encode's match on (min_width, max_width, align).  to_fill = min saturating-minus the
+   characters offered to the align writer (also those a MaxWidthWriter below it swallows). *)
+Definition apply_params (p : params) (evs : list ev) : list ev :=
+  match p_min p, p_max p with
+  | None, None => evs
+  | None, Some mx => max_width mx evs
+  | Some mn, None =>
+    let pad := fill_ev (p_fill p) (mn - total_chars evs) in
+    if p_right p then pad :: evs              (* fill, then the buffered writes and styles in order *)
+    else evs ++ [pad]
+  | Some mn, Some mx =>
+    let pad := fill_ev (p_fill p) (mn - total_chars evs) in
+    if p_right p then max_width mx (pad :: evs)
+    else max_width mx (evs ++ [pad])
+  end.
+
 Fixpoint enc_chunk (c : chunk) (lv : level) (msg : bytes) : list ev :=
   match c with
   | CText s => [EvBytes s]
   | CLevel => [EvBytes (level_name lv)]
   | CMessage => [EvBytes msg]
   | CNewline => [EvBytes [10]]
-  | CHighlight cs =>
+  | CHighlight p cs =>
     let inner := (fix go (l : list chunk) : list ev :=
                     match l with
                     | [] => []
                     | c' :: r => enc_chunk c' lv msg ++ go r
                     end) cs in
-    match highlight_style lv with
-    | Some st => EvStyle st :: inner ++ [EvStyle style_new]
-    | None => inner
-    end
+    apply_params p
+      match highlight_style lv with
+      | Some st => EvStyle st :: inner ++ [EvStyle style_new]
+      | None => inner
+      end
   end.
 
 (* PatternEncoder::encode *)
